@@ -126,7 +126,7 @@ impl<'a> Gen<'a> {
     /// a type usable as hash / ordered key
     pub fn key_ty(&mut self, depth: u32) -> Ty {
         match self.rng.below(if depth == 0 { 6 } else { 9 }) {
-            0..=2 => Ty::Int(INTS[self.rng.below(12) as usize].0),
+            0..=2 => { let k = *self.rng.pick(&["i8", "i16", "i32", "i64", "isize", "u8", "u16", "u32", "u64", "usize"]); Ty::Int(k) }
             3 => Ty::String, 4 => Ty::Char, 5 => Ty::Bool,
             6 => Ty::Tuple(vec![self.key_ty(depth - 1), self.key_ty(depth - 1)]),
             7 => Ty::Opt(Box::new(self.key_ty(depth - 1))),
@@ -401,7 +401,12 @@ pub fn generate(profile: &str, seed: u64, krate: &str) -> Program {
     if profile == "witness" {
         g.d.enums.push(EnumDef { name: "W0".into(), repr: Some("u8"), variants: vec![("V0".into(), Payload::Tuple(vec![Ty::Int("u16")]), Some(3)), ("V1".into(), Payload::Unit, Some(255))] });
     }
+    if profile == "witness" {
+        g.d.cenums.push(CEnumDef { name: "W1".into(), repr: Some("u64"), variants: vec![("W1P".into(), 1), ("W1Q".into(), 9223372036854775808)] });
+    }
     let witness: Vec<(Ty, String, T)> = vec![
+        (Ty::CEnum(0), "W1::W1Q".into(), T::CVariant("W1Q".into())),
+        (Ty::CEnum(0), "W1::W1P".into(), T::CVariant("W1P".into())),
         (Ty::Enum(0), "W0::V1".into(), T::Variant("V1".into(), vec![])),
         (Ty::Enum(0), "W0::V0(7)".into(), T::Variant("V0".into(), vec![("__0".into(), T::Num("7".into()))])),
         (Ty::Opt(Box::new(Ty::Int("u128"))), "Some(5u128)".into(), T::Variant("Some".into(), vec![("__0".into(), T::Num("5".into()))])),
@@ -442,7 +447,7 @@ pub fn generate(profile: &str, seed: u64, krate: &str) -> Program {
     let mut arg_exprs = vec![];
     if profile != "bigdeque" {
         for i in 0..(if profile == "witness" { 1 } else { 4 }) {
-            let ty = match i { _ if profile == "witness" => Ty::Vec(Box::new(Ty::Int("u64"))), 0 => g.scalar_ty(), 1 => Ty::Tuple(vec![g.scalar_ty(), g.scalar_ty()]), 2 => Ty::Str, _ => { let d = g.rng.below(2) as u32; Ty::Vec(Box::new(g.ty(d))) } };
+            let ty = match i { _ if profile == "witness" => Ty::Vec(Box::new(Ty::Int("u64"))), 0 => { let mut t = g.scalar_ty(); while t == Ty::Unit { t = g.scalar_ty(); } t } 1 => Ty::Tuple(vec![Ty::Int(INTS[g.rng.below(12) as usize].0), g.scalar_ty()]), 2 => Ty::Str, _ => { let d = g.rng.below(2) as u32; Ty::Vec(Box::new(g.ty(d))) } };
             let (expr, truth) = g.val(&ty);
             arg_exprs.push(expr);
             args.push(Var { name: format!("a{i}"), family: g.family(&ty).to_string(), shape: shape_of(&truth), ty, truth, hint: None });
